@@ -31,7 +31,7 @@ LEVEL_NOTE = ("Trusted base: sim/world.py (switches only at synchronisation poin
 QUICK_WORKERS = 4
 WORKERS = 14
 
-FLAVOURS = ('reconnect', 'replace', 'control', 'requests', 'trash', 'two_sessions', 'keyspace_sync', 'control_fail')
+FLAVOURS = ('reconnect', 'replace', 'control', 'requests', 'trash', 'two_sessions', 'keyspace_sync', 'control_fail', 'trash_convict', 'trash_lenient')
 INF = 10 ** 9
 
 K_TRASH = "trashed-connection-never-closed-by-hostconnection-shutdown"
@@ -72,7 +72,7 @@ def variants():
     for fl in FLAVOURS:
         for proto in (4, 2):
             for kind in ('cluster', 'session'):
-                if fl == 'trash' and proto == 2:
+                if fl.startswith('trash') and proto == 2:
                     continue            # the trash of HostConnectionPool is filled by the size-down logic, a different path (not driven here)
                 out.append((fl, proto, kind))
     return out
@@ -93,7 +93,7 @@ def run_history(seed, variant, k):
     addrs = ['127.0.0.1', '127.0.0.2'] + (['127.0.0.3'] if flavour == 'control_fail' else [])
     env = SimEnv(ch, addresses=addrs, max_virtual_time=600.0)
     w = env.world
-    if flavour == 'trash':
+    if flavour.startswith('trash'):
         env.conn_class.max_in_flight = 8
         env.conn_class.orphaned_threshold = 3
     plan = {}                      # uid -> action
@@ -353,7 +353,7 @@ def run_history(seed, variant, k):
                     return
                 request(session, host=h2)
                 sleep(0.3)
-            elif flavour == 'trash':
+            elif flavour.startswith('trash'):
                 # three requests never answered time out on the client: orphan threshold reached, the next borrow replaces the connection
                 # while two more requests (one answered late, one never) are still in flight on the old one -> the old connection goes to the pool's trash
                 for i in range(3):
@@ -369,6 +369,21 @@ def run_history(seed, variant, k):
                     return
                 request(session, host=h2)
                 sleep(0.5)
+                if flavour in ('trash_convict', 'trash_lenient'):
+                    # the replacement connection itself is then lost with a request in flight while the old one still sits in the trash with its live
+                    # request: the host is convicted (the pool shuts itself down, reconnector, new pool) or, with a lenient conviction policy, the
+                    # pool has no current connection while the next replacement waits for its handshake answer
+                    if S['stop']:
+                        return
+                    if flavour == 'trash_lenient':
+                        convict['127.0.0.2'] = False
+                        hold_handshake['127.0.0.2'] = [1, 0.6, 'OPTIONS', 'pool-replace']
+                    request(session, host=h2, act='reset')
+                    sleep(1.0)
+                    if S['stop']:
+                        return
+                    request(session, host=h2)
+                    sleep(0.3)
         except W.WorldKilled:
             raise
         except Exception as e:
@@ -641,7 +656,7 @@ def run(ctx):
     from vlib.run import Inconclusive
     from sim.world import WorldLimit
     ctx.rule = ("a case is (history variant, injection step k): variant = what happens (reconnect / replace / control / requests / trash / "
-                "two_sessions / keyspace_sync / control_fail) x protocol (v4 HostConnection, v2 HostConnectionPool) x which shutdown (Cluster / Session); for each variant all k in "
+                "two_sessions / keyspace_sync / control_fail / trash_convict / trash_lenient) x protocol (v4 HostConnection, v2 HostConnectionPool) x which shutdown (Cluster / Session); for each variant all k in "
                 "0..N are run (N = scheduling steps of the uninterrupted history); distinct by (variant, k); non-trivial = the cluster object existed "
                 "at step k")
     ctx.assume("requests that were in flight when shutdown was called are not judged (they carry finite timeouts); only a request issued after the call returned must not stay pending")
@@ -652,7 +667,7 @@ def run(ctx):
     order = list(range(len(allv)))
     first = [allv.index(('reconnect', 4, 'session')), allv.index(('control', 4, 'cluster')), allv.index(('replace', 2, 'cluster')),
              allv.index(('trash', 4, 'cluster')),
-             allv.index(('keyspace_sync', 4, 'session')), allv.index(('keyspace_sync', 2, 'cluster')), allv.index(('replace', 4, 'session')),
+             allv.index(('keyspace_sync', 4, 'session')), allv.index(('keyspace_sync', 2, 'cluster')), allv.index(('trash_convict', 4, 'cluster')),
              allv.index(('control_fail', 4, 'cluster'))]
     if ctx.quick:
         first = first[:8]
